@@ -25,4 +25,5 @@ PY
 )
   if [ -z "$miss" ]; then echo "OK   $s"; elif [[ " $BENIGN " == *" $s "* ]]; then echo "BENIGN $s (silent as expected)"; else echo "MISS $s: $miss"; rc=1; fi
 done
+echo "note: the quick checks above ran on patched trees and rewrote /verif/evidence/*.json - run tools/runall.sh on the clean tree before committing (rewrites evidence)"
 exit $rc
